@@ -911,3 +911,41 @@ Lemma spring_force_gradient (c : @config R) (p : @params R) xe x :
   f_spring c p xe x = - (p_k p * (xe - x)) /\
   is_derive (fun X => 1 / 2 * p_k p * cv_dist2 Rops c xe X) x (f_spring c p xe x).
 Proof. intros H. split; [exact (f_spring_free c p xe x H) | exact (spring_is_gradient c p xe x H)]. Qed.
+
+(* state saved BETWEEN two slow steps of a variable with timeStepFactor > 1: the saved extended_x is the coordinate reported at
+   the last slow step t, although the object already holds x_(t+f); the resumed run is one slow step behind *)
+Lemma resume_sleeping_refuted :
+  exists (c : @config R) (p : @params R) (i1 i2 : @input R),
+    free_cfg c /\ c_tsf c = 2%Z /\ consecutive (c_tsf c) 0 [i1; i2] /\
+    let s1 := step Rops c p (init_state Rops) i1 in
+    let s2 := step Rops c p s1 i2 in
+    let r2 := step Rops c p (restart_state Rops (s_x_rep s1) (s_v_rep s1)) (shift_input 1 i2) in
+    s_x_rep s2 = 1 /\ s_x_rep r2 = 0.
+Proof.
+  set (c := mkConfig 1 1 1 16 0 (1 / 2) 2%Z 0 1 false false 1 None false false).
+  set (p := mkParams 1 1 0 0 false).
+  set (i1 := mkInput 0%Z 0 2 0 0 true). set (i2 := mkInput 2%Z 0 0 0 0 true).
+  exists c, p, i1, i2.
+  assert (Hfree : free_cfg c) by (repeat split).
+  split; [exact Hfree | ]. split; [reflexivity | ]. split; [cbn; repeat split; reflexivity | ].
+  assert (Hp1 : props_xv Rops c (init_state Rops) i1 = (0, 0)).
+  { rewrite props_first; [ | reflexivity | cbn; lia | reflexivity]. rewrite clamp_free; reflexivity. }
+  assert (He1 : tsf_error c (init_state Rops) i1 = false) by reflexivity.
+  destruct (step_free_obs c p (init_state Rops) i1 0 0 Hfree eq_refl He1 Hp1) as (Hobs & Hx & Hts & _ & Har).
+  set (s1 := step Rops c p (init_state Rops) i1) in *.
+  assert (Hd : doc_step c p 0 0 (i_x i1) (i_fb i1 / IZR (c_tsf c)) (i_rnd i1) = (1, 1)).
+  { unfold doc_step, doc_force, Dt. cbn. f_equal; field. }
+  rewrite Hd in Hobs, Hx. cbn [fst snd] in Hobs, Hx.
+  assert (Hrep : s_x_rep s1 = 0 /\ s_v_rep s1 = 0) by (unfold obs in Hobs; inversion Hobs; split; reflexivity).
+  destruct Hrep as [Hxr Hvr]. cbn zeta. split.
+  - assert (Hp2 : props_xv Rops c s1 i2 = (1, s_v_ext s1)).
+    { apply props_continue; [reflexivity | rewrite Hts; cbn; lia | exact Hx | left; cbn; lia]. }
+    assert (He2 : tsf_error c s1 i2 = false) by (apply tsf_error_consec; right; left; rewrite Hts; reflexivity).
+    destruct (routing_running c p s1 i2 eq_refl He2) as (_ & _ & H3 & _). rewrite H3, Hp2. reflexivity.
+  - rewrite Hxr, Hvr.
+    assert (Hp2 : props_xv Rops c (restart_state Rops 0 0) (shift_input 1 i2) = (0, 0)).
+    { rewrite (props_continue c _ _ 0); [reflexivity | reflexivity | cbn; lia | reflexivity | right; reflexivity]. }
+    assert (He2 : tsf_error c (restart_state Rops 0 0) (shift_input 1 i2) = false) by reflexivity.
+    destruct (routing_running c p (restart_state Rops 0 0) (shift_input 1 i2) eq_refl He2) as (_ & _ & H3 & _).
+    rewrite H3, Hp2. reflexivity.
+Qed.
